@@ -219,6 +219,10 @@ def fmt(t):
     return '%04d-%02d-%02d' % tuple(t)
 
 
+def _show(spec):
+    return repr(mkv(spec)) if is_dateobj(spec) else fmt(ymd3(spec))
+
+
 # ====================================================================================== evaluators (routes)
 LAYOUTS = {  # name: (sheet, first column 0-based, first row 0-based, columns, rows, range text)
     'col': (0, 4, 0, 1, 6, 'E1:E6'),
@@ -530,7 +534,7 @@ def case_datedif(ev, s_spec, e_spec, unit, in_cell=False):
     if is_dateobj(s_spec) or is_dateobj(e_spec):
         c = 'date_object'
     return (f'C15.datedif.{c}', ordinal(*e) - ordinal(*s) + abs(s[0] - 2024) / 100.0,
-            f'DATEDIF({fmt(s)},{fmt(e)},{unit!r}{" via cell" if in_cell else ""}) -> {got!r}, expected {exp}')
+            f'DATEDIF({_show(s_spec)},{_show(e_spec)},{unit!r}{" via cell" if in_cell else ""}) -> {got!r}, expected {exp}')
 
 
 def _nwd_features(s_spec, e_spec, hol):
@@ -639,6 +643,7 @@ def sweep_date_extremes(acc, rng):
     for y in (2023, 2024):
         for m in range(-14, 27):
             for d in (-70, -31, -2, -1, 0, 1, 2, 28, 29, 30, 31, 32, 60, 99):
+                acc.run('date', float(y), m, d)
                 acc.run('date', y, float(m), d)
                 acc.run('date', y, m, float(d))
                 acc.run('date', float(y), float(m), float(d))
@@ -669,9 +674,8 @@ def shift_starts(tier):
     """start dates for EDATE / EOMONTH"""
     out = []
     if tier == 'quick':
-        spans = [((2023, 1, 1), (2025, 3, 31))]
-        tails = [1899, 1900, 1901, 1904, 1996, 1999, 2000, 2001, 2048, 2049, 2050, 2051, 2052, 2096, 2099, 2100, 2101, 2104,
-                 2400, 9990]
+        spans = [((2023, 12, 1), (2025, 3, 31))]
+        tails = [1900, 1904, 1999, 2000, 2001, 2049, 2050, 2051, 2099, 2100, 2101, 2400, 9990]
     else:
         spans = [((1896, 1, 1), (1905, 12, 31)), ((1996, 1, 1), (2005, 12, 31)), ((2019, 1, 1), (2030, 12, 31)),
                  ((2046, 1, 1), (2056, 12, 31)), ((2096, 1, 1), (2105, 12, 31))]
@@ -804,6 +808,12 @@ def sweep_nwd_window(acc, rng, lo, hi, part, nparts, nrandom):
                 s, e = s + TODS[n % 4], e + TODS[(n // 4) % 4]
             for hol, layout in holiday_menu(so, eo, lo, hi, rng, nrandom, ['col', 'grid', 'row', 'sheetH']):
                 acc.run('networkdays', s, e, hol, layout)
+            if abs(so - eo) <= 1:    # the order of the two DATES decides the sign, whatever the times of day are
+                d0, d1 = from_ordinal(so), from_ordinal(eo)
+                for ta in TODS:
+                    for tb in TODS:
+                        acc.run('networkdays', d0 + ta, d1 + tb, None, 'none')
+                        acc.run('networkdays', d0 + ta, d1 + tb, [from_ordinal(so + 2) + tb, BLANK], 'col')
     acc.sample({'NETWORKDAYS': [[2024, 1, 1], [2024, 1, 31], ['2024-01-02', '2024-01-02', '2024-01-06']], 'expected': 22})
 
 
@@ -811,6 +821,12 @@ def sweep_nwd_random(acc, rng, n, maxspan, long_lists):
     """long intervals anywhere in 1899..2101 (and a few up to 9999), random holiday lists; with `long_lists` the lists have
     1001..1200 entries (helpers and the AAA1:AAA1200 workbook)"""
     lo, hi = ordinal(1899, 1, 1), ordinal(2101, 12, 31)
+    if long_lists:          # small witnesses first: the entries that matter sit behind 1000 / 1100 others
+        a, b = (2024, 1, 1), (2024, 1, 31)
+        for pre in (1000, 1100, LONG_ROWS - 1):
+            acc.run('networkdays', a, b, [BLANK] * pre + [(2024, 1, 3)], 'long')
+            acc.run('networkdays', b, a, [(2024, 1, 2)] * pre + [(2024, 1, 3)], 'long')
+            acc.run('networkdays', a, b, [(2023, 12, 29)] * pre + [(2024, 1, 31)], 'long')
     for i in range(n):
         if i % 10 == 9:
             so = rng.randint(ordinal(2101, 1, 1), MAX_ORD - maxspan - 10)
@@ -919,8 +935,15 @@ def literal_cases(tier, rng):
     return cs
 
 
-def sweep_literal(acc, rng, tier):
-    cs = literal_cases(tier, rng)
+LITERAL_PARTS = {'quick': 8, 'thorough': 16}
+
+
+LITERAL_FAMILY = {'date': 'date', 'ymd_of_date': 'date', 'edate': 'shift', 'eomonth': 'shift', 'datedif': 'datedif',
+                  'networkdays': 'nwd'}
+
+
+def sweep_literal(acc, rng, tier, family='date', part=0, nparts=1):
+    cs = [c for c in literal_cases(tier, rng) if LITERAL_FAMILY[c[0]] == family][part::nparts]
     formulas, spans = [], []
     for f, args in cs:
         fs = render(f, args)
@@ -930,7 +953,7 @@ def sweep_literal(acc, rng, tier):
     if r['error'] is not None:
         acc.evals += 1
         acc.add('C15.literal.translate', 0, f'[literal] translation of {len(formulas)} date formulas failed: {r["error"]}',
-                {'kind': 'literal_all', 'tier': tier})
+                {'kind': 'literal_all', 'tier': tier, 'family': family, 'part': part, 'nparts': nparts})
         return
     vals = [codec.dec(v, make_empty=lambda: 0) for v in r['values']]
     for (f, args), (i, n) in zip(cs, spans):
@@ -945,7 +968,8 @@ def sweep_literal(acc, rng, tier):
         key, size, what = res
         acc.add(key, size, f'[literal {" ".join(render(f, args))}] {what}',
                 {'kind': 'literal', 'f': f, 'args': codec.enc(list(args))})
-    acc.sample({'formula': '=DATE(2024,-13,-70)', 'expected': list(ref_date(2024, -13, -70))})
+    if family == 'date':
+        acc.sample({'formula': '=DATE(2024,-13,-70)', 'expected': list(ref_date(2024, -13, -70))})
 
 
 # ------------------------------------------------------------------ TODAY
@@ -974,9 +998,9 @@ def _today_probe(acc, ev, label):
         acc.evals += 1
         if not any(oks):
             sfx = '[abstract]' if ev.route == 'abstract' else ''
-            acc.add(f'C15.today.{what}.{label}{sfx}', 0,
+            acc.add(f'C15.today.{label}{sfx}', len(acc.fails),
                     f'[{ev.route}, TZ={os.environ.get("TZ")!r}] {ZF[ZI[what]]} -> {got!r}, but the local date is {fmt(r1)}',
-                    {'kind': 'today', 'key': f'C15.today.{what}.{label}{sfx}'})
+                    {'kind': 'today', 'key': f'C15.today.{label}{sfx}'})
 
 
 def check_today(acc):
@@ -1169,6 +1193,7 @@ def check_contexts(acc, tier):
 # ====================================================================================== task plan / pool
 W = {  # windows as day-number pairs
     'leap3y': (ordinal(2023, 1, 1), ordinal(2025, 12, 31)),
+    'leap2y': (ordinal(2023, 7, 1), ordinal(2025, 6, 30)),
     'c1900': (ordinal(1899, 6, 1), ordinal(1901, 6, 30)),
     'c2000': (ordinal(1999, 6, 1), ordinal(2001, 6, 30)),
     'c2100': (ordinal(2099, 6, 1), ordinal(2101, 6, 30)),
@@ -1199,18 +1224,21 @@ def plan(tier):
             T.append(('date', route, 'date_box', dict(years=[y], **box)))
         T.append(('date', route, 'date_extremes', {}))
         T.append(('ymd', route, 'ymd', {}))
-    T.append(('date', 'literal', 'literal', dict(tier=tier)))
+    for part in range(LITERAL_PARTS[tier]):
+        T.append(('date', 'literal', 'literal', dict(tier=tier, family='date', part=part, nparts=LITERAL_PARTS[tier])))
+    for fam in ('shift', 'datedif', 'nwd'):
+        T.append((fam, 'literal', 'literal', dict(tier=tier, family=fam, part=0, nparts=1)))
     # ---- EDATE / EOMONTH
     for route in ALL3:
-        for part in range(NP if not q else 4):
-            T.append(('shift', route, 'shift', dict(tier=tier, part=part, nparts=NP if not q else 4)))
+        for part in range(NP):
+            T.append(('shift', route, 'shift', dict(tier=tier, part=part, nparts=NP)))
     # ---- DATEDIF
     for route in HELPERS:
         for part in range(NP):
-            T.append(('datedif', route, 'datedif_window', dict(win='leap3y', part=part, nparts=NP, sstep=1, cell_every=0)))
+            T.append(('datedif', route, 'datedif_window', dict(win='leap2y' if q else 'leap3y', part=part, nparts=NP, sstep=1, cell_every=0)))
         for win in ('c1900', 'c2000', 'c2100', 'y2050'):
             for part in range(4):
-                T.append(('datedif', route, 'datedif_window', dict(win=win, part=part, nparts=4, sstep=3 if q else 1, cell_every=0)))
+                T.append(('datedif', route, 'datedif_window', dict(win=win, part=part, nparts=4, sstep=5 if q else 1, cell_every=0)))
     for part in range(NP):
         T.append(('datedif', 'override', 'datedif_window',
                   dict(win='winter24' if q else 'mid', part=part, nparts=NP, sstep=1, cell_every=5)))
@@ -1300,7 +1328,7 @@ CHECKS = [
      'one evaluation = one returned date compared with (month index + whole months toward zero, day clamped to / replaced by the '
      'length of the target month); results outside years 1..9999 are not counted', True),
     ('datedif', 'C15.monitor.datedif',
-     'DATEDIF units D, M, Y, YM: helpers in both copies on ALL pairs start<=end of 2023-01-01..2025-12-31 and on the windows '
+     'DATEDIF units D, M, Y, YM: helpers in both copies on ALL pairs start<=end of {tier_dd0} and on the windows '
      '1899-06..1901-06, 1999-06..2001-06, 2049-06..2051-06, 2099-06..2101-06 ({tier_dd1}); =DATEDIF(A2,A3,"u") under overrides on '
      'all pairs of {tier_dd2}, every 5th pair also with the unit in an overridden cell D2; {tier_dd3} seeded pairs per route '
      '(uniform in 1899..2101, near anniversaries, month-end starts, spans up to year 9999); literal formulas for 12 borrow pairs',
@@ -1353,7 +1381,7 @@ def run(tier='quick', seed=0):
         acc.add('C15.monitor_error.today', 0, f'today check stopped: {type(exc).__name__}: {str(exc)[:300]}', None)
     agg['today'].update(evals=acc.evals, fails=dict(acc.fails), samples=acc.samples, seconds=time.time() - t0)
     # longest tasks first
-    order = sorted(jobs, key=lambda j: (0 if j[2][2] in ('datedif_window', 'nwd_window', 'shift', 'contexts') else 1, j[0]))
+    order = sorted(jobs, key=lambda j: (0 if j[2][2] in ('datedif_window', 'nwd_window', 'shift', 'contexts', 'literal') else 1, j[0]))
     t_pool = time.time()
     with multiprocessing.Pool(NP) as pool:
         results = pool.map(_run_task, order, chunksize=1)
@@ -1374,10 +1402,11 @@ def run(tier='quick', seed=0):
     subst = {
         'tier_box': ('years {1900,1999,2000,2023,2024,100,2100} x months -14..26 x days -70..99' if q else
                      'years {1900,1999,2000,2023,2024,100,2100,1904,2050,2051,2096,2400,9998} x months -30..40 x days -400..400'),
-        'tier_shift': ('every day 2023-01-01..2025-03-31 + days 1,15,27..31 of every month of 20 further years 1899..9990' if q else
+        'tier_shift': ('every day 2023-12-01..2025-03-31 + days 1,15,27..31 of every month of 13 further years 1900..9990' if q else
                        'every day of 1896-1905, 1996-2005, 2019-2030, 2046-2056, 2096-2105 + days 1,15,27..31 of every month of '
                        'years 1,4,100,400,1600,1700,1800,2200,2300,2400,5000,9990,9994,9999'),
-        'tier_dd1': 'every 3rd start day' if q else 'all pairs',
+        'tier_dd0': '2023-07-01..2025-06-30' if q else '2023-01-01..2025-12-31',
+        'tier_dd1': 'every 5th start day' if q else 'all pairs',
         'tier_dd2': '2023-12-01..2024-03-31' if q else '2023-06-01..2025-03-31',
         'tier_dd3': '4 x 1500' if q else '4 x 20000',
         'tier_nwd': '2023-12-18..2024-03-10' if q else '2023-12-18..2024-03-10, 1900-02-12..03-11, 2100-02-15..03-14, '
@@ -1430,7 +1459,8 @@ def replay(payload):
         elif kind == 'contexts':
             check_contexts(acc, payload.get('tier', 'thorough'))
         else:
-            sweep_literal(acc, random.Random(0), payload.get('tier', 'quick'))
+            sweep_literal(acc, random.Random(0), payload.get('tier', 'quick'), payload.get('family', 'date'),
+                          payload.get('part', 0), payload.get('nparts', 1))
         key = payload.get('key')
         hit = acc.fails.get(key) if key else (next(iter(acc.fails.values())) if acc.fails else None)
         if hit:
